@@ -906,7 +906,23 @@ func c11Run(c c11Case) (v vVerdict) {
 				fn += ".nope"
 				mustErr = "map file does not exist"
 			}
-			err, bad = e.call("MapServer.Load", func() error { var r bool; return ms.Load(&fn, &r) })
+			mapBefore := fmt.Sprintf("%+v", ms.Map)
+			if ms.Map != nil {
+				mapBefore = fmt.Sprintf("%+v", *ms.Map)
+			}
+			var lerr error
+			_, bad = e.call("MapServer.Load", func() error { var r bool; lerr = ms.Load(&fn, &r); return lerr })
+			err = lerr
+			if bad == nil && lerr != nil {
+				// a refused request leaves the map that is installed (and that every later START takes its pixels from) as it was
+				mapAfter := fmt.Sprintf("%+v", ms.Map)
+				if ms.Map != nil {
+					mapAfter = fmt.Sprintf("%+v", *ms.Map)
+				}
+				if mapAfter != mapBefore {
+					return vFailf("refused-request-changed-settings", "step %d: MapServer.Load(%s) was refused (%v), yet the installed map changed from %s to %s", i, filepath.Base(fn), lerr, vTrim(mapBefore, 200), vTrim(mapAfter, 200))
+				}
+			}
 			if mustErr == "" {
 				err = nil
 			}
